@@ -240,6 +240,21 @@ pub fn gen_plan(rng: &mut Rng, est_len: u64) -> Plan {
     }
 }
 
+/// How a failing script ends: mostly 1 or 2, sometimes the codes shells use for "killed by
+/// SIGINT / SIGTERM" (130, 143) although nobody interrupted anything, 126/127, 255.
+pub fn fail_exit(rng: &mut Rng) -> String {
+    let code = match rng.weighted(&[40, 25, 10, 10, 5, 5, 5]) {
+        0 => 1,
+        1 => 2,
+        2 => 130,
+        3 => 143,
+        4 => 126,
+        5 => 127,
+        _ => 255,
+    };
+    format!("exit={}", code)
+}
+
 pub fn signal_at_idle() -> PlanEvent {
     PlanEvent { id: "sig".into(), kind: PlanEventKind::Signal, gate: Gate::Idle }
 }
@@ -389,6 +404,13 @@ pub fn gen_io(rng: &mut Rng, o: &IoOpts) -> Scenario {
                         files.push(FileSpec { path: format!("{}/{}/dangling.c", pdir, d), kind: FileKind::Symlink("nowhere.c".into()) });
                         files.push(FileSpec { path: format!("{}/{}/emptydir", pdir, d), kind: FileKind::Dir });
                     }
+                    if rng.chance(20) {
+                        // a link to a regular file kept OUTSIDE the declared directory (a selected
+                        // profile, a file in a content-addressed store): it counts as a file of
+                        // the directory, with the content and time stamp of what it points to
+                        files.push(FileSpec { path: format!("{}/shared/{}-profile.cfg", pdir, name), kind: FileKind::File(format!("{} {} profile v0\n", pdir, name)) });
+                        files.push(FileSpec { path: format!("{}/{}/profile.c", pdir, d), kind: FileKind::Symlink(format!("../../shared/{}-profile.cfg", name)) });
+                    }
                     if rng.chance(10) {
                         // a tool's control pipe lying in the sources: not a regular file
                         files.push(FileSpec { path: format!("{}/{}/ctl.pipe", pdir, d), kind: FileKind::Fifo });
@@ -401,7 +423,13 @@ pub fn gen_io(rng: &mut Rng, o: &IoOpts) -> Scenario {
                         files.push(FileSpec { path: format!("{}/{}/sub/.zinoma/deep.c", pdir, d), kind: FileKind::File("planted deeper\n".into()) });
                         files.push(FileSpec { path: format!("{}/{}/sub/keep.c", pdir, d), kind: FileKind::File("next to a nested work dir\n".into()) });
                     }
-                    let ext = match rng.weighted(&[40, 25, 20, 15]) {
+                    let ext = match rng.weighted(&[40, 25, 20, 15, 12]) {
+                        4 => {
+                            // filters are case-sensitive suffixes: `C` selects Main.C, not a.c
+                            files.push(FileSpec { path: format!("{}/{}/Main.C", pdir, d), kind: FileKind::File(format!("{} {} Main.C v0\n", pdir, name)) });
+                            files.push(FileSpec { path: format!("{}/{}/Defs.H", pdir, d), kind: FileKind::File(format!("{} {} Defs.H v0\n", pdir, name)) });
+                            Some(vec!["C".to_string(), ".H".to_string()])
+                        }
                         0 => None,
                         1 => Some(vec!["c".to_string(), ".h".to_string()]),
                         2 => Some(vec![".c".to_string(), "".to_string()]),
